@@ -352,8 +352,14 @@ def benchmark_seed_independence(rep):
     import nasim
     from .check_c14 import scenario_fingerprint
     from nasim.scenarios.benchmark import AVAIL_GEN_BENCHMARKS
+    from .budget import BudgetExceeded, guarded_generate
     for name, b in AVAIL_GEN_BENCHMARKS.items():
         if b["num_hosts"] > 40:
+            continue
+        try:
+            guarded_generate(lambda: nasim.make_benchmark_scenario(name, 5))
+        except BudgetExceeded:
+            rep.count("benchmark-generation-does-not-terminate(C15)")
             continue
         rep.evaluated()
         f1 = scenario_fingerprint(nasim.make_benchmark_scenario(name, 5))
